@@ -252,7 +252,7 @@ PROPS = {
         'trusted': [],
     },
     'C07': {
-        'level_text': 'Proof over R of every deterministic clause (better always accepted, undefined never, equal accepted at every temperature, worse never at kT <= 0, worse by d at kT > 0 accepted iff threshold < exp(-d/kT)), of the probability clause as a Lebesgue-measure statement (volume of accepting thresholds in [0,1) equals exp(-d/kT)), carrier-generic NaN clause, and that each step applies exactly this rule with its own draw, the current score and temperature. The threshold draw is exact: gen::<f64>() = (v >> 11)/2^53 and exactly 2^11*ceil(p*2^53) of the 2^64 raw outputs pass u < p, so the acceptance probability is within 2^-53 above exp(-d/kT) for a uniform raw output (C07Draw; closed form tied to the doubles by the rng unitq requests). Partial: uniformity of Pcg64Mcg's raw output is trusted. energy_surface / test_acceptance / accept_score are regenerated from the source and proved equal to the model (TieAccept).',
+        'level_text': 'Proof over R of every deterministic clause (better always accepted, undefined never, equal accepted at every temperature, worse never at kT <= 0, worse by d at kT > 0 accepted iff threshold < exp(-d/kT)), of the probability clause as a Lebesgue-measure statement (volume of accepting thresholds in [0,1) equals exp(-d/kT)), carrier-generic NaN clause, and that each step applies exactly this rule with its own draw, the current score and temperature. The threshold draw is exact: gen::<f64>() = (v >> 11)/2^53 and exactly 2^11*ceil(p*2^53) of the 2^64 raw outputs pass u < p, so the acceptance probability is within 2^-53 above exp(-d/kT) for a uniform raw output (C07Draw; closed form tied to the doubles by the rng unitq requests). Partial: uniformity of the raw output of Pcg64Mcg is trusted. energy_surface / test_acceptance / accept_score are regenerated from the source and proved equal to the model (TieAccept).',
         'level_note': 'Trusted: uniformity of rand\'s Standard f64 and Pcg64Mcg (the stream itself is pinned bit-for-bit by the rng family); Lean kernel + 3 axioms; Mathlib measure theory.',
         'technique': 'Lean 4 proof (real analysis, Lebesgue measure, exact counting of raw outputs) + source-to-Lean translation of the acceptance rule with tie theorems + bit-exact differential correspondence incl. PRNG port',
         'theorems': ['Proofs.C07', 'Proofs.C07Draw', 'Proofs.TieAccept'],
